@@ -302,6 +302,16 @@ func (x *g) mapField(vals []msgInfo) desc.Field {
 		}
 	case x.r.P(15):
 		f.Type, f.TypeName = "enum", x.pick(x.enums)
+	case x.r.P(10):
+		// map of std time / std duration values (map[string]*time.Time, by value with nullable=false)
+		if x.r.P(50) {
+			f.Type, f.StdTime = "timestamp", true
+		} else {
+			f.Type, f.StdDuration = "duration", true
+		}
+		if x.r.P(40) {
+			f.Nullable = "false"
+		}
 	default:
 		f.Type = desc.Scalars[x.r.Intn(len(desc.Scalars))]
 		for f.Type == "bytes" && x.opt.NoMapOfBytes {
